@@ -1,6 +1,7 @@
 package c15
 
 import (
+	"encoding/json"
 	"fmt"
 	"strings"
 
@@ -88,6 +89,7 @@ func runJSPrims(r *engine.Run) {
 		if jv.data != nil {
 			exp.Put("Export.byvalue", jv.data.Canon())
 		}
+		exp.Put("MarshalJSON.valid", "JSON text or an error")
 		r.Eval(got.M["Run"] == "ok")
 		r.Tree(1, 1)
 		r.Outcome(got.String())
@@ -163,6 +165,12 @@ func observeJS(g *brig.Rig, src string, wantAgree bool) (*brig.Obs, bool) {
 		return bridge.FromExport(e).Canon()
 	}))
 	mj := raw.M["MarshalJSON"]
+	// a json.Marshaler returns JSON text or an error, never other bytes
+	if mj == "err" || strings.HasPrefix(mj, "PANIC") || json.Valid([]byte(mj)) {
+		o.Put("MarshalJSON.valid", "JSON text or an error")
+	} else {
+		o.Put("MarshalJSON.valid", "neither: "+brig.OneLine(mj))
+	}
 	if mj != "err" && !strings.HasPrefix(mj, "PANIC") {
 		mj = jsonCanon(mj)
 	}
